@@ -167,6 +167,9 @@ class SetMutator(Contract):
         raise NotImplementedError
 
     def post(self, cx, I, ov, info, kind, payload, st):
+        return self.tag(self._post(cx, I, ov, info, kind, payload, st))
+
+    def _post(self, cx, I, ov, info, kind, payload, st):
         S0 = info["S"]
         S1 = st.heap[info["self_ref"].oid].payload
         evs = st.ghost["events"]
@@ -199,6 +202,20 @@ class SetMutator(Contract):
             out.append(("raise:same-exception-as-set-or-validator", z3.Or(*alts) if alts else z3.BoolVal(False)))
             out.append(("raise:contents-unchanged", seteq(S1, S0)))
             out.append(("raise:no-event", z3.BoolVal(len(evs) == 0)))
+        return out
+
+    def tag(self, clauses):
+        out = []
+        own = tuple(p for p in self.properties if p in ("C05", "C06", "C07"))
+        for cl in clauses:
+            name = cl[0]
+            if name.startswith("raise:"):
+                props = own + ("C04", "C19")
+            elif "validated" in name:
+                props = own + ("C04",)
+            else:
+                props = own
+            out.append((cl[0], cl[1], cl[2] if len(cl) > 2 else {}, props))
         return out
 
     def same_result(self, cx, info, payload, st, rp):
@@ -389,8 +406,8 @@ class _Xor(SetMutator):
     def reference(self, cx, I, ov, info):
         return _xor_reference(cx, info, self.result)
 
-    def post(self, cx, I, ov, info, kind, payload, st):
-        out = super().post(cx, I, ov, info, kind, payload, st)
+    def _post(self, cx, I, ov, info, kind, payload, st):
+        out = super()._post(cx, I, ov, info, kind, payload, st)
         if kind == "return":
             V, S0, (O,) = info["V"], info["S"], info["operands"]
             S1 = st.heap[info["self_ref"].oid].payload
